@@ -117,6 +117,10 @@ def run(ctx: Ctx):
                 kw[ctx.rng.choice([x for x in M.NAME_POOL if x not in names])] = 1.5
             shape = [max(0, len(names) + ctx.rng.choice([0, 0, 1, -1])), max(0, (1 if kind == "vector" else len(names)) + ctx.rng.choice([0, 0, 0, 1]))]
             ops.append({"op": op, "kwargs": kw, "shape": shape})
+            if op == "from_dict" and len(names) >= 2 and ctx.rng.random() < 0.5:
+                a, b = ctx.rng.sample(names, 2)
+                known_only = {k: v for k, v in kw.items() if k in names and k != a}
+                ops.append({"op": "from_dict_pair", "kwargs": known_only, "pair": [a, b, 0.125], "shape": shape})
         cases.append({"kind": kind, "arglist": names, "ops": ops})
     r = ctx.run_impl("named_py.py", {"cases": cases})
     kinds = {}
@@ -130,6 +134,11 @@ def run(ctx: Ctx):
             for oi, (op, o) in enumerate(zip(c["ops"], outs)):
                 tag = f"{c['kind']}/{op['op']}/{'err' if 'err' in o else 'ok'}"
                 kinds[tag] = kinds.get(tag, 0) + 1
+                if op["op"] == "from_dict_pair":
+                    if "err" not in o:
+                        ctx.violation(f"named {c['kind']}.from_dict accepted the key ({op['pair'][0]}, {op['pair'][1]}), which is not one of its names "
+                                      f"(stored: {o['data']})", {"case": c, "op": oi, "observed": o}, key="named-accepts-pair-key")
+                    continue
                 if op["op"] == "from_data":
                     rr, cc = op["shape"]
                     data = "(" + M.coq_list([M.coq_list([M.coq_q(i * cc + j + 0.5) for j in range(cc)]) for i in range(rr)]) + " : lmat)"
